@@ -9,11 +9,12 @@ import (
 )
 
 const (
-	keyChainID      = "ci"
-	keyBlockHeight  = "bh"
-	keyBlockContext = "bc"
-	keyBlockAppHash = "ah"
-	keyRewardHash   = "rh"
+	keyChainID        = "ci"
+	keyBlockHeight    = "bh"
+	keyBlockContext   = "bc"
+	keyBlockAppHash   = "ah"
+	keyRewardHash     = "rh"
+	keyLastValidators = "lv"
 )
 
 type MetaDB struct {
@@ -84,6 +85,14 @@ func (stdb *MetaDB) LastRewardHash() []byte {
 
 func (stdb *MetaDB) PutLastRewardHash(v []byte) error {
 	return stdb.put(keyRewardHash, v)
+}
+
+func (stdb *MetaDB) LastValidators() []byte {
+	return stdb.get(keyLastValidators)
+}
+
+func (stdb *MetaDB) PutLastValidators(v []byte) error {
+	return stdb.put(keyLastValidators, v)
 }
 
 func (stdb *MetaDB) LastBlockContext() *BlockContext {
